@@ -180,12 +180,16 @@ def glide_entries(col, facts):
             tmpl, ctx0 = o.ret, o.ctx
     if tmpl is None:
         return
-    for pi in range(4):
+    umax, min_fc = G.limits_from_new(tmpl, ctx0, S)
+    if umax is None:
+        col.res.ob('R-PANIC', 'GlideProcessor::set_time', False, 'cannot read the fastest setting from the constructor design', where_of(facts, G.GP + '::new'), key='R-PANIC:glide-limits')
+        return
+    for pi in range(G.N_PARTS):
         it = Interp(facts)
         st = State()
         st.ctx = ctx0.copy()
         gp = gl.processor(it, st, tmpl)
-        pname, tterm, fs_ = G.time_partitions(st, S.term, tmpl.get('max_fc').term, tmpl.get('min_fc').term.const_value() or Fr(1, 10))[pi]
+        pname, tterm, fs_ = G.time_partitions(st, S.term, umax, min_fc)[pi]
         for f in fs_:
             st.ctx.assume(f)
         col.run('GlideProcessor::set_time|' + pname, it, st, G.GP + '::set_time', gp, [Num(tterm, 'f32')])
@@ -442,8 +446,69 @@ def loops(res, facts):
                                 nb = tt['target']
                             else:
                                 break
+            if not ok and counted_loop(f, body):
+                ok, why = True, 'counted loop: exit guard on a local that is incremented by a positive constant every iteration against a loop-invariant bound'
             res.ob('R-LOOP', '%s loop@bb%d' % (p.split('::')[-1], head), ok, why, f['span'], key='R-LOOP:%s:%d' % (p, n))
     res.extra['loops'] = n
+
+
+def counted_loop(f, body):
+    """`while i < B { ...; i += c }`: some exit switch tests a comparison of local i with an operand not assigned in
+    the loop, and i is only ever assigned `i + c` (c >= 1 constant) inside the loop"""
+    assigned = {}
+    for b in body:
+        for s in f['blocks'][b]['stmts']:
+            if s['k'] == 'assign' and not s['place']['p']:
+                assigned.setdefault(s['place']['l'], []).append(s['rv'])
+        t = f['blocks'][b]['term']
+        if t['k'] == 'call' and not t['dest']['p']:
+            assigned.setdefault(t['dest']['l'], []).append({'k': 'call'})
+
+    def incremented(l):
+        """every assignment to l in the loop is l = (l + c).0 with c >= 1"""
+        rvs = assigned.get(l, [])
+        if not rvs:
+            return False
+        for rv in rvs:
+            if rv['k'] != 'use' or rv['op']['k'] not in ('move', 'copy'):
+                return False
+            src = rv['op']['place']
+            if not (len(src['p']) == 1 and src['p'][0]['k'] == 'field' and src['p'][0]['i'] == 0):
+                return False
+            tl = src['l']
+            trv = assigned.get(tl, [])
+            if len(trv) != 1 or trv[0]['k'] != 'binop' or not trv[0]['op'].startswith('Add'):
+                return False
+            a, b_ = trv[0]['a'], trv[0]['b']
+            if not (a['k'] in ('copy', 'move') and a['place'] == {'l': l, 'p': []}):
+                # the add may read a copy of l made in the loop
+                if not (a['k'] in ('copy', 'move') and not a['place']['p'] and any(r['k'] == 'use' and r['op'].get('place') == {'l': l, 'p': []} for r in assigned.get(a['place']['l'], []))):
+                    return False
+            if b_['k'] != 'const' or 'int' not in b_['c'].get('val', {}) or int(b_['c']['val']['int']) < 1:
+                return False
+        return True
+    for b in body:
+        t = f['blocks'][b]['term']
+        if t['k'] != 'switch' or not any(s not in body for s in term_succs(t)):
+            # the exit may be one goto away
+            if t['k'] != 'switch' or not any(leads_out(f, s, body) for s in term_succs(t)):
+                continue
+        d = t['discr']
+        if d['k'] not in ('copy', 'move') or d['place']['p']:
+            continue
+        for rv in assigned.get(d['place']['l'], []):
+            if rv['k'] == 'binop' and rv['op'] in ('Lt', 'Le', 'Gt', 'Ge', 'Ne'):
+                for x, y in ((rv['a'], rv['b']), (rv['b'], rv['a'])):
+                    if x['k'] in ('copy', 'move') and not x['place']['p']:
+                        il = x['place']['l']
+                        # the compared value may be a copy of the counter made in the loop
+                        srcs = [il] + [r['op']['place']['l'] for r in assigned.get(il, []) if r['k'] == 'use' and r['op']['k'] in ('copy', 'move') and not r['op']['place']['p']]
+                        for cl in srcs:
+                            if incremented(cl):
+                                inv = y['k'] == 'const' or (y['k'] in ('copy', 'move') and all(not incremented(z) for z in [y['place']['l']]))
+                                if inv:
+                                    return True
+    return False
 
 
 def leads_out(f, b, body, depth=4):
